@@ -280,3 +280,54 @@ Example accepts_example :
   accepts 50 [LConnCall [mkOut false [78%N]] true; LInit; LPeerRecv (mkOut false [78%N]);
               LCloseCall; LCloseRet; LClosed; LDisc; LReturn ENil; LIsConn false; LPeerEOF] = true.
 Proof. vm_compute. reflexivity. Qed.
+
+(* The checker discriminates: sessions that break a clause of the property are not traces of
+   (the checker's view of) the machine. *)
+Definition xa : event := EvMsg [97%N].
+Definition xb : event := EvMsg [98%N].
+Definition xe : event := EvError [120%N].
+
+(* nil result without CLOSED *)
+Example rejects_missing_closed :
+  accepts 50 [LConnCall [] true; LInit; LCloseCall; LCloseRet; LDisc; LReturn ENil] = false.
+Proof. vm_compute. reflexivity. Qed.
+(* CLOSED although the result is an error *)
+Example rejects_closed_on_error :
+  accepts 50 [LConnCall [] true; LInit; LPeerClose; LClosed; LDisc; LReturn EIO] = false.
+Proof. vm_compute. reflexivity. Qed.
+(* nil although nobody asked to close *)
+Example rejects_nil_unrequested :
+  accepts 50 [LConnCall [] true; LInit; LPeerClose; LClosed; LDisc; LReturn ENil] = false.
+Proof. vm_compute. reflexivity. Qed.
+(* ErrEvent returned but the ERROR was never delivered *)
+Example rejects_error_not_delivered :
+  accepts 50 [LConnCall [] true; LInit; LPeerSend (LnEv xe); LDisc; LReturn (EErrEvent [120%N])] = false.
+Proof. vm_compute. reflexivity. Qed.
+(* an event overtakes another *)
+Example rejects_reordering :
+  accepts 50 [LConnCall [] true; LInit; LPeerSend (LnEv xa); LPeerSend (LnEv xb); LDeliver xb] = false.
+Proof. vm_compute. reflexivity. Qed.
+(* an event sent before the ERROR is skipped *)
+Example rejects_unflushed :
+  accepts 50 [LConnCall [] true; LInit; LPeerSend (LnEv xa); LPeerSend (LnEv xe); LDeliver xe] = false.
+Proof. vm_compute. reflexivity. Qed.
+(* an event of the first connection is delivered on the second *)
+Example rejects_stale_event :
+  accepts 50 [LConnCall [] true; LInit; LPeerSend (LnEv xe); LPeerSend (LnEv xa); LDeliver xe; LDisc;
+              LReturn (EErrEvent [120%N]); LConnCall [] true; LInit; LDeliver xa] = false.
+Proof. vm_compute. reflexivity. Qed.
+(* output of the first connection is written on the second *)
+Example rejects_stale_output :
+  accepts 50 [LConnCall [] true; LInit; LPeerClose; LSend (mkOut false [111%N]); LDisc; LReturn EIO;
+              LConnCall [] true; LInit; LPeerRecv (mkOut false [111%N])] = false.
+Proof. vm_compute. reflexivity. Qed.
+(* IsConnected() true after the return *)
+Example rejects_still_connected :
+  accepts 50 [LConnCall [] true; LInit; LCloseCall; LCloseRet; LClosed; LDisc; LReturn ENil; LIsConn true] = false.
+Proof. vm_compute. reflexivity. Qed.
+(* the same sessions with the clause respected are accepted *)
+Example accepts_after_error :
+  accepts 50 [LConnCall [] true; LInit; LPeerSend (LnEv xa); LPeerSend (LnEv xe); LDeliver xa; LDeliver xe;
+              LDisc; LReturn (EErrEvent [120%N]); LIsConn false; LPeerEOF;
+              LConnCall [] true; LInit; LPeerSend (LnEv xb); LDeliver xb] = true.
+Proof. vm_compute. reflexivity. Qed.
